@@ -6,6 +6,6 @@ CONSTANTS
   Emission = 2
   XrdEach = 2
   GenesisSel = "a"
-INVARIANTS NonNeg UnitsAreHeld ClaimsBacked NoGain ClosedFormAgrees
+INVARIANTS SetStakesPositive NonNeg UnitsAreHeld ClaimsBacked NoGain ClosedFormAgrees
 PROPERTIES NoValueCreated EmissionBound PriceMonotone ActiveSetChosenOK
 CHECK_DEADLOCK FALSE
